@@ -90,6 +90,18 @@ fn construct(id: usize, p: &[Val]) -> Result<Obj, String> {
     })
 }
 
+/// the other public constructor: `Default::default()`
+fn construct_default(id: usize) -> Result<Obj, String> {
+    catch(|| match id {
+        0 => Obj::Bernoulli(Default::default()), 1 => Obj::Beta(Default::default()), 2 => Obj::Binomial(Default::default()),
+        3 => Obj::ChiSquared(Default::default()), 4 => Obj::DiscreteUniform(Default::default()), 5 => Obj::Exponential(Default::default()),
+        6 => Obj::Gamma(Default::default()), 7 => Obj::Gumbel(Default::default()), 8 => Obj::Normal(Default::default()),
+        9 => Obj::Pareto(Default::default()), 10 => Obj::Poisson(Default::default()), 11 => Obj::T(Default::default()),
+        12 => Obj::Uniform(Default::default()),
+        _ => unreachable!(),
+    })
+}
+
 macro_rules! each { ($o:expr, $d:ident => $e:expr) => { match $o {
     Obj::Bernoulli($d) => $e, Obj::Beta($d) => $e, Obj::Binomial($d) => $e, Obj::ChiSquared($d) => $e, Obj::DiscreteUniform($d) => $e,
     Obj::Exponential($d) => $e, Obj::Gamma($d) => $e, Obj::Gumbel($d) => $e, Obj::Normal($d) => $e, Obj::Pareto($d) => $e,
@@ -124,22 +136,49 @@ impl Obj {
     fn flat(&self) -> Vec<Val> { parse_debug(&self.debug()) }
     fn params(&self, sp: &Spec) -> Vec<Val> { self.flat()[..sp.kinds.len()].to_vec() }
 
-    /// what a user can see without touching the RNG: density/mass at probe points, mean, variance
+    /// what a user can see without touching the RNG: density/mass (and log-density, Normal's cdf) at fixed probe points AND at points
+    /// placed by the object's own parameters (the parameters themselves, their neighbours, mean, mean +- sd, interval midpoint:
+    /// after a whole-interval move or a rescaling the fixed points may all lie outside the support), mean, variance
     fn look(&self) -> Vec<u64> {
-        fn cont<D: Continuous<PDFType = f64> + Mean<MeanType = f64> + Variance<VarianceType = f64>>(d: &D) -> Vec<u64> {
+        fn cont<D: Continuous<PDFType = f64> + Mean<MeanType = f64> + Variance<VarianceType = f64>>(d: &D, ps: &[f64]) -> Vec<u64> {
             let mut v = vec![];
-            for x in [-2.5, -1.0, 0.0, 0.25, 0.5, 1.0, 1.5, 3.0, 10.0] { v.push(bits(catch(|| d.pdf(x)))); }
+            let (m, var) = (catch(|| d.mean()), catch(|| d.var()));
+            let mut xs: Vec<f64> = vec![-2.5, -1.0, 0.0, 0.25, 0.5, 1.0, 1.5, 3.0, 10.0];
+            for &p in ps { xs.extend_from_slice(&[p, 0.5 * p, 2.0 * p, p + 1.0, p - 1.0, p * (1.0 + f64::EPSILON), p * (1.0 - f64::EPSILON)]); }
+            if ps.len() == 2 { xs.push(0.5 * ps[0] + 0.5 * ps[1]); xs.push(ps[0] * ps[1]); xs.push(ps[0] / ps[1]); }
+            if let (Ok(m), Ok(var)) = (&m, &var) { let sd = var.sqrt(); xs.extend_from_slice(&[*m, m + sd, m - sd, m + 6.0 * sd]); }
+            for x in xs { v.push(bits(catch(|| d.pdf(x)))); v.push(bits(catch(|| d.ln_pdf(x)))); }
+            v.push(bits(m)); v.push(bits(var)); v
+        }
+        // pmf of Binomial / Poisson costs O(min(k, n - k)) / O(k): parameter-placed points are kept where that is cheap
+        fn disc<D: Discrete + Mean<MeanType = f64> + Variance<VarianceType = f64>>(d: &D, ks: &[i64]) -> Vec<u64> {
+            let mut v = vec![];
+            for x in [-1i64, 0, 1, 2, 5, 10].iter().chain(ks) { v.push(bits(catch(|| d.pmf(*x)))); }
             v.push(bits(catch(|| d.mean()))); v.push(bits(catch(|| d.var()))); v
         }
-        fn disc<D: Discrete + Mean<MeanType = f64> + Variance<VarianceType = f64>>(d: &D) -> Vec<u64> {
-            let mut v = vec![];
-            for x in [-1i64, 0, 1, 2, 5, 10] { v.push(bits(catch(|| d.pmf(x)))); }
-            v.push(bits(catch(|| d.mean()))); v.push(bits(catch(|| d.var()))); v
-        }
+        let fl = self.flat();
+        let f = |i: usize| fl[i].f();
+        let n = |i: usize| fl[i].i().clamp(i64::MIN as i128, i64::MAX as i128) as i64;
+        let cheap = |k: f64| if k.is_finite() && k.abs() <= 20_000.0 { vec![k as i64, k as i64 + 1] } else { vec![] };
         match self {
-            Obj::Bernoulli(d) => disc(d), Obj::Binomial(d) => disc(d), Obj::DiscreteUniform(d) => disc(d), Obj::Poisson(d) => disc(d),
-            Obj::Beta(d) => cont(d), Obj::ChiSquared(d) => cont(d), Obj::Exponential(d) => cont(d), Obj::Gamma(d) => cont(d),
-            Obj::Gumbel(d) => cont(d), Obj::Normal(d) => cont(d), Obj::Pareto(d) => cont(d), Obj::T(d) => cont(d), Obj::Uniform(d) => cont(d),
+            Obj::Bernoulli(d) => disc(d, &[]),
+            Obj::Binomial(d) => { let nn = fl[0].i();       // k = n, n - 1, n + 1 are O(1) for every n
+                let mut ks: Vec<i64> = if nn <= i64::MAX as i128 - 1 { vec![nn as i64, nn as i64 - 1, nn as i64 + 1] } else { vec![] };   // k <= i64::MAX < n: every such k costs O(k)
+                ks.extend(cheap(nn as f64 * f(1))); if nn <= 40_000 { ks.push((nn / 2) as i64); } disc(d, &ks) }
+            Obj::DiscreteUniform(d) => { let (a, b) = (n(0), n(1));
+                disc(d, &[a, b, a.saturating_sub(1), a.saturating_add(1), b.saturating_sub(1), b.saturating_add(1), ((a as i128 + b as i128) / 2) as i64, i64::MIN, i64::MAX]) }
+            Obj::Poisson(d) => disc(d, &cheap(f(0))),
+            Obj::Normal(d) => { let mut v = cont(d, &[f(0), f(1)]);
+                // `cdf` is not among the functions the property names (density or mass, mean, variance, samples); it is compared as one more
+                // function of the state, but only where its argument (x - mu) / (sigma sqrt 2) is a number: `erf(NaN)` recurses without bound
+                // (known, DESIGN D.1 "observed, outside every property's quantifier") and takes the process down for object and twin alike,
+                // e.g. Normal::new(m, 0.).cdf(m) (0/0) or Normal::new(-inf, s).cdf(-inf)
+                for x in [-2.5, 0.0, 1.0, f(0), f(0) + f(1), f(0) - 3.0 * f(1), f(0) + 1.0] {
+                    if ((x - f(0)) / (f(1) * 2_f64.sqrt())).is_nan() { continue; }
+                    v.push(bits(catch(|| d.cdf(x)))); } v }
+            Obj::Beta(d) => cont(d, &[f(0), f(1)]), Obj::ChiSquared(d) => cont(d, &[f(0), f(0) - 2.0]), Obj::Exponential(d) => cont(d, &[f(0), 1.0 / f(0)]),
+            Obj::Gamma(d) => cont(d, &[f(0), f(1)]), Obj::Gumbel(d) => cont(d, &[f(0), f(1)]), Obj::Pareto(d) => cont(d, &[f(0), f(1)]),
+            Obj::T(d) => cont(d, &[f(0)]), Obj::Uniform(d) => cont(d, &[f(0), f(1)]),
         }
     }
     /// the first `n` draws after `alea::set_seed(seed)`
@@ -155,18 +194,14 @@ fn bulk_safe(id: usize, p: &[Val]) -> bool {
 const PANIC_BITS: u64 = 0x7ff8_dead_beef_0001;
 fn bits(r: Result<f64, String>) -> u64 { match r { Ok(x) => if x.is_nan() { 0x7ff8_0000_0000_0000 } else { x.to_bits() }, Err(_) => PANIC_BITS } }
 
-/// Sampling terminates (quickly) in the unrepaired samplers only in these regions (C03 owns the samplers:
-/// Marsaglia-Tsang loops forever for shape < 1/3, the inversion sampler for an underflowing (1-p)^n).
-fn sample_safe(id: usize, p: &[Val]) -> bool {
-    if p.iter().any(|v| matches!(v, Val::F(x) if x.is_nan())) { return false; }   // Poisson's PTRS loop never accepts with a NaN rate
-    match id {
-        1 => p[0].f() >= 0.34 && p[1].f() >= 0.34,
-        6 => p[0].f() >= 0.34,
-        11 => p[0].f() >= 0.68,
-        2 => p[0].i() <= 100_000,
-        10 => p[0].f() <= 1e6,
-        _ => true,
-    }
+/// Where the seeded streams are compared.  The UNREPAIRED samplers terminated (quickly) only for gamma shapes >= 1/3 (Beta, Gamma, T),
+/// Binomial n <= 1e5 and Poisson rates <= 1e6 (C03 owns the samplers: Marsaglia-Tsang looped forever for shape < 1/3, the inversion
+/// sampler for an underflowing (1-p)^n), and the streams were compared only there.  With C03's repairs every sampler returns for every
+/// parameter the constructors accept (probed: 2000 draws each at shapes / rates / scales 5e-324 .. 1e308 and inf, n up to 2^64 - 1 with
+/// p from 5e-324 to 1 - 2^-53, bounds i64::MIN / i64::MAX, dof up to 2^64 - 1; T(5e-324).sample() panics in both object and twin), so the
+/// comparison now runs over the whole domain; a sampler that loops again is reported through the breadcrumb as crash:hang.
+fn sample_safe(_id: usize, p: &[Val]) -> bool {
+    !p.iter().any(|v| matches!(v, Val::F(x) if x.is_nan()))   // Poisson's PTRS loop never accepts with a NaN rate (NaN: correspondence stream only)
 }
 
 fn parse_debug(s: &str) -> Vec<Val> {
@@ -216,7 +251,8 @@ fn value_for(r: &mut Rng, d: Dom, valid: bool) -> f64 {
 }
 fn int_for(r: &mut Rng, k: K, d: Dom, valid: bool) -> i128 {
     match k {
-        K::U => if valid || d == Dom::AnyInt { *r.pick(&[1i128, 2, 3, 5, 10, 100, 1000, (1 << 53) + 1, u64::MAX as i128, 7, 30]) } else { 0 },
+        // Binomial's n = 0 is valid (the sampler and the mass function have a branch for it); ChiSquared's dof = 0 is the invalid value
+        K::U => if d == Dom::AnyInt && r.coin(0.12) { 0 } else if valid || d == Dom::AnyInt { *r.pick(&[1i128, 2, 3, 5, 10, 100, 1000, (1 << 53) + 1, u64::MAX as i128, 7, 30, 31, 100_000, 100_001, 1 << 32]) } else { 0 },
         _ => match r.below(10) { 0 => i64::MIN as i128, 1 => i64::MAX as i128, 2 => 0, _ => r.range(-50, 50) as i128 },
     }
 }
@@ -235,6 +271,8 @@ fn draw_call(r: &mut Rng, sp: &Spec, cur: &[Val]) -> (usize, Arg) {
                 K::I => { let (lo, hi) = (lo.i(), hi.i());
                           let x = if (k == 0) == valid { lo.min(hi) - r.range(0, 9) as i128 } else { lo.max(hi) + r.range(if valid { 0 } else { 1 }, 9) as i128 };
                           let x = if !valid && k == 0 { hi + r.range(1, 9) as i128 } else if !valid { lo - r.range(1, 9) as i128 } else { x };
+                          // one call in ten: a far / extreme bound (valid or not as it falls), as the float bounds get below
+                          let x = if r.coin(0.1) { int_for(r, K::I, sp.doms[k], true) } else { x };
                           Val::I(x.clamp(i64::MIN as i128, i64::MAX as i128)) }
                 _ => { let (lo, hi) = (lo.f(), hi.f());
                        let x = if k == 0 { if valid { hi - r.uniform(0.0, 7.0) * r.below(2) as f64 } else { hi + r.uniform(0.1, 7.0) } }
@@ -310,14 +348,23 @@ fn twin_equal(id: usize, sp: &Spec, o: &Obj, seed: u64, with_draws: bool) -> Opt
     let (lo, lt) = (o.look(), twin.look());
     if lo != lt { return Some((false, format!("pdf/pmf/mean/var bits differ from the fresh twin at parameters {}", show_vals(&p)))); }
     if with_draws && sample_safe(id, &p) {
-        let a = o.draws(seed, 12);
-        // other live objects, constructed in between, must not matter; nor must a second run from the same seed
-        let _others: Vec<Obj> = (0..13).filter_map(|j| construct(j, &default_params(j)).ok()).collect();
-        let b = twin.draws(seed, 12);
-        if a != b { return Some((false, format!("the first 12 draws after set_seed({}) differ from the fresh twin at parameters {}", seed, show_vals(&p)))); }
+        let a = o.draws(seed, NDRAWS);
+        // other live objects, constructed in between, must not matter (0, 1, 13 or 130 of them, by the seed; copies of the object itself among
+        // them; they are sampled and mutated while the object and its twin exist); nor must a second run from the same seed
+        let nother = [0usize, 1, 13, 130][(seed % 4) as usize];
+        let mut others: Vec<Obj> = (0..nother).filter_map(|j| if j % 5 == 4 { Some(*o) } else { construct(j % 13, &default_params(j % 13)).ok() }).collect();
+        for (j, ot) in others.iter_mut().enumerate() {
+            let _ = catch(|| each!(&*ot, d => d.sample()));
+            if j % 5 == 4 { let dp: Vec<f64> = default_params(id).iter().map(|v| v.f()).collect(); let _ = ot.call(sp.kinds.len(), &Arg::Update(dp)); }
+        }
+        let b = twin.draws(seed, NDRAWS);
+        if a != b { return Some((false, format!("the first {} draws after set_seed({}) differ from the fresh twin at parameters {} ({} other objects alive)", NDRAWS, seed, show_vals(&p), others.len()))); }
+        // the object itself must not have been touched by what happened to its copies
+        if o.debug() != twin.debug() { return Some((false, format!("state {} changed while other objects were mutated (fresh: {})", o.debug(), twin.debug()))); }
     }
     Some((true, String::new()))
 }
+const NDRAWS: usize = 64;
 fn default_params(id: usize) -> Vec<Val> {
     match id { 0 => vec![Val::F(0.5)], 2 => vec![Val::I(3), Val::F(0.5)], 3 => vec![Val::I(2)], 4 => vec![Val::I(0), Val::I(3)],
                5 | 10 | 11 => vec![Val::F(1.5)], 8 | 7 => vec![Val::F(0.0), Val::F(1.0)], 12 => vec![Val::F(0.0), Val::F(1.0)], _ => vec![Val::F(1.5), Val::F(2.0)] }
@@ -337,14 +384,19 @@ pub fn gen(tier: &str, seed: u64, outdir: &str) {
             // NaN parameters: only in the correspondence stream (the property does not say whether NaN is "invalid";
             // the model must still do what the code does: `x <= 0.` lets NaN through, `assert!(x > 0.)` and `contains` do not)
             if h % 20 == 13 { let j = r.below(p0.len() as u64) as usize; if let Val::F(_) = p0[j] { p0[j] = Val::F(f64::NAN); } }
+            // the other constructor: the object `Default::default()` returns, handed to the model as `new` of ITS parameters
+            // (so the lock-step comparison of the complete state also says that the default object is one `new` builds)
+            let from_default = h % 20 == 7;
+            if from_default { if let Ok(d) = construct_default(id) { p0 = d.params(sp); } }
             let (zs, fs) = zs_fs(&p0);
-            let mut o = match construct(id, &p0) {
+            let mut o = match if from_default { construct_default(id) } else { construct(id, &p0) } {
                 Err(_) => { cs.push(app("CHist", vec![Tm::Nat(id as u64), zs, fs, Tm::Raw("Panic".into()), Tm::L(vec![])]), &format!("{}/new-panics", sp.name), false); continue; }
                 Ok(o) => o,
             };
             let (ezs, efs) = zs_fs(&o.flat());
             let e0 = app("Val", vec![Tm::Tup(vec![ezs, efs])]);
             let len = 1 + r.below(20) as usize;
+            let len = match h { 0 | 7 => 20, 1 => 1, _ => len };     // both ends of the stated range, for every distribution
             let mut steps = vec![]; let mut changes = 0; let mut panics = 0;
             for _ in 0..len {
                 let cur = o.params(sp);
@@ -365,6 +417,7 @@ pub fn gen(tier: &str, seed: u64, outdir: &str) {
                 let (szs, sfs) = zs_fs(&o.flat());
                 steps.push(Tm::Tup(vec![Tm::Nat(k as u64), azs, afs, Tm::Tup(vec![Tm::B(res.is_ok()), Tm::B(tw), szs, sfs])]));
             }
+            if from_default { *cs.tags.entry(format!("{}/from-default", sp.name)).or_insert(0) += 1; }
             let tag = format!("{}/len{}{}", sp.name, if len <= 5 { "1-5" } else if len <= 12 { "6-12" } else { "13-20" }, if panics > 0 { "+panics" } else { "" });
             cs.push(app("CHist", vec![Tm::Nat(id as u64), zs, fs, e0, Tm::L(steps)]), &tag, changes >= 2);
         }
@@ -391,11 +444,27 @@ pub fn oracle(tier: &str, seed: u64) -> (u64, Vec<Finding>) {
             let mut hist = format!("{}::new({})", sp.name, show_vals(&p0));
             tried += 1;
             crumb(&hist);
-            let mut o = match construct(id, &p0) {
-                Ok(o) => { if !in_domain(sp, &p0) { out.push(Finding { class: format!("constructor-accepts-out-of-domain:{}", sp.name), what: "the constructor returned an object for parameters outside the documented domain".into(), input: hist.clone() }); } o }
+            // the other constructor: every eighth history starts from `Default::default()`, which must be an object `new` can build
+            let from_default = s % 8 == 3;
+            if from_default {
+                hist = format!("{}::default()", sp.name);
+                crumb(&hist);
+                match construct_default(id) {
+                    Err(e) => { out.push(Finding { class: format!("default-panics:{}", sp.name), what: format!("Default::default() panicked ({})", e), input: hist.clone() }); continue; }
+                    Ok(d) => match twin_equal(id, sp, &d, seed ^ s, true) {
+                        None => out.push(Finding { class: format!("object-holds-refused-parameters:{}", sp.name), what: format!("the default object is {} but {}::new panics on these parameters", d.debug(), sp.name), input: hist.clone() }),
+                        Some((false, why)) => out.push(Finding { class: format!("differs-from-fresh-twin:{}", sp.name), what: why, input: hist.clone() }),
+                        Some((true, _)) => if !in_domain(sp, &d.params(sp)) { out.push(Finding { class: format!("constructor-accepts-out-of-domain:{}", sp.name), what: "the default object holds parameters outside the documented domain".into(), input: hist.clone() }); },
+                    },
+                }
+            }
+            let mut o = match if from_default { construct_default(id) } else { construct(id, &p0) } {
+                Ok(o) => { if !from_default && !in_domain(sp, &p0) { out.push(Finding { class: format!("constructor-accepts-out-of-domain:{}", sp.name), what: "the constructor returned an object for parameters outside the documented domain".into(), input: hist.clone() }); } o }
                 Err(e) => { if in_domain(sp, &p0) { out.push(Finding { class: format!("constructor-rejects-valid:{}", sp.name), what: format!("the constructor panicked ({}) on parameters inside the documented domain", e), input: hist.clone() }); } continue; }
             };
+            // both ends of the stated range 1..20 are reached for every distribution whatever the seed
             let len = 1 + r.below(20) as usize;
+            let len = match s { 0 | 3 => 20, 1 => 1, _ => len };
             for step in 0..len {
                 let cur = o.params(sp);
                 let (k, a) = draw_call(&mut r, sp, &cur);
@@ -425,7 +494,10 @@ pub fn oracle(tier: &str, seed: u64) -> (u64, Vec<Finding>) {
                 if res.is_err() && k < sp.kinds.len() && o.debug() != before {
                     out.push(Finding { class: format!("rejected-setter-mutated-object:{}::{}", sp.name, mname), what: format!("the setter panicked but the object changed from {} to {}", before, o.debug()), input: hist.clone() });
                 }
-                match twin_equal(id, sp, &o, seed.wrapping_mul(31).wrapping_add(step as u64), true) {
+                // RNG seeds of every size, 0 and 2^64 - 1 included (they were 31 .. 50 only)
+                let tseed = match (step + s as usize) % 6 { 0 => 0, 1 => u64::MAX, 2 => seed.wrapping_mul(31).wrapping_add(step as u64),
+                                                            _ => Rng::new(seed ^ (s << 24) ^ ((id as u64) << 40) ^ step as u64).next() };
+                match twin_equal(id, sp, &o, tseed, true) {
                     None => out.push(Finding { class: format!("object-holds-refused-parameters:{}", sp.name), what: format!("the object is {} but {}::new panics on these parameters", o.debug(), sp.name), input: hist.clone() }),
                     Some((false, why)) => { out.push(Finding { class: format!("differs-from-fresh-twin:{}", sp.name), what: why, input: hist.clone() }); }
                     Some((true, _)) => {}
@@ -435,17 +507,39 @@ pub fn oracle(tier: &str, seed: u64) -> (u64, Vec<Finding>) {
                 if step == len - 1 && sample_safe(id, &p) {
                     let a1 = o.draws(seed ^ 77, 8); let a2 = o.draws(seed ^ 77, 8);
                     if a1 != a2 { out.push(Finding { class: format!("sampling-not-reproducible:{}", sp.name), what: "two runs of 8 draws from the same seed differ".into(), input: hist.clone() }); }
+                    // ... the matrix form is the same stream, row-major
+                    {
+                        let (nr, nc) = [(3usize, 5usize), (1, 1), (4, 1), (1, 6), (2, 2)][(s % 5) as usize];
+                        let inp = format!("{}; alea::set_seed({}); sample_matrix({}, {})", hist, seed ^ 93, nr, nc);
+                        crumb(&crumb_text(&inp)); tried += 1;
+                        alea::set_seed(seed ^ 93);
+                        let m: Result<(Vec<usize>, Vec<u64>), String> = catch(|| { let m = each!(&o, d => d.sample_matrix(nr, nc)); (vec![m.nrows, m.ncols], m.data().iter().map(|x| bits(Ok(*x))).collect()) });
+                        let single = o.draws(seed ^ 93, nr * nc);
+                        match m {
+                            // the bulk form is the same stream as successive single draws: it is right to panic exactly when one of those does
+                            // (T::new(5e-324).sample() panics, dof / 2 underflows to the gamma shape 0; the sampler belongs to C03)
+                            Err(_) if single.contains(&PANIC_BITS) => {}
+                            Err(e) => out.push(Finding { class: format!("bulk-sampling-panics:{}", sp.name), what: e, input: inp }),
+                            Ok((sh, b)) => if sh != vec![nr, nc] || b != single {
+                                out.push(Finding { class: format!("bulk-draws-differ-from-single-draws:{}", sp.name), what: format!("from the same seed, sample_matrix({}, {}) (shape {:?}) and {} successive sample() calls differ", nr, nc, sh, nr * nc), input: inp });
+                            }
+                        }
+                    }
                     // ... and of BULK draws of every size (small, and beyond any internal batching threshold): the same seed gives the same stream
                     // whether the draws are requested one at a time or in bulk
-                    if s < 2 && bulk_safe(id, &p) {
-                        for nb in [7usize, 1000, 40_000] {
+                    // the small sizes (0 and 1: the boundary) for every history and every parameter; the large ones where 40 000 draws are cheap
+                    {
+                        for &nb in [0usize, 1, 7, 1000, 40_000].iter().filter(|&&nb| nb <= 7 || s < 4 && bulk_safe(id, &p)) {
                             let inp = format!("{}; alea::set_seed({}); sample_n({})", hist, seed ^ 91, nb);
                             crumb(&crumb_text(&inp)); tried += 1;
                             alea::set_seed(seed ^ 91);
                             let bulk: Result<Vec<u64>, String> = catch(|| each!(&o, d => d.sample_n(nb)).iter().map(|x| bits(Ok(*x))).collect());
                             let single = o.draws(seed ^ 91, nb);
                             match bulk {
-                                Err(e) => out.push(Finding { class: format!("bulk-sampling-panics:{}", sp.name), what: e, input: inp }),
+                                // the bulk form is the same stream as successive single draws: it is right to panic exactly when one of those does
+                            // (T::new(5e-324).sample() panics, dof / 2 underflows to the gamma shape 0; the sampler belongs to C03)
+                            Err(_) if single.contains(&PANIC_BITS) => {}
+                            Err(e) => out.push(Finding { class: format!("bulk-sampling-panics:{}", sp.name), what: e, input: inp }),
                                 Ok(b) => if b != single {
                                     let k = (0..nb).find(|&k| b.get(k) != single.get(k)).unwrap_or(0);
                                     out.push(Finding { class: format!("bulk-draws-differ-from-single-draws:{}", sp.name), what: format!("from the same seed, sample_n({}) and {} successive sample() calls differ (first at draw {}; lengths {} / {})", nb, nb, k, b.len(), single.len()), input: inp });
